@@ -177,7 +177,7 @@ func keyVariants(k *world.Key, others []*world.Key, rng *rand.Rand) []jwkVariant
 	mod("long-x", func(j *jws.JWK) {
 		b, _ := rawURL.DecodeString(j.X)
 		j.X = rawURL.EncodeToString(append([]byte{0}, b...))
-	}, false)
+	}, k.Type != world.Ed25519)
 	mod("missing-x", func(j *jws.JWK) { j.X = "" }, false)
 	if k.Type != world.Ed25519 {
 		mod("missing-y", func(j *jws.JWK) { j.Y = "" }, false)
@@ -187,6 +187,22 @@ func keyVariants(k *world.Key, others []*world.Key, rng *rand.Rand) []jwkVariant
 			j.Y = rawURL.EncodeToString(b)
 		}, false)
 		mod("swapped-xy", func(j *jws.JWK) { j.X, j.Y = j.Y, j.X }, false)
+		// same point, coordinate spelt with leading zero bytes (only the length rule can refuse it)
+		mod("long-y", func(j *jws.JWK) {
+			b, _ := rawURL.DecodeString(j.Y)
+			j.Y = rawURL.EncodeToString(append([]byte{0}, b...))
+		}, true)
+		mod("double-length-y", func(j *jws.JWK) {
+			b, _ := rawURL.DecodeString(j.Y)
+			j.Y = rawURL.EncodeToString(append(make([]byte, len(b)), b...))
+		}, true)
+		mod("short-y", func(j *jws.JWK) { b, _ := rawURL.DecodeString(j.Y); j.Y = rawURL.EncodeToString(b[1:]) }, false)
+		mod("long-x-and-y", func(j *jws.JWK) {
+			b, _ := rawURL.DecodeString(j.Y)
+			j.Y = rawURL.EncodeToString(append([]byte{0}, b...))
+			a, _ := rawURL.DecodeString(j.X)
+			j.X = rawURL.EncodeToString(append([]byte{0}, a...))
+		}, true)
 	}
 	return vs
 }
